@@ -8,6 +8,7 @@ import PenneModel.Lit.Model
 import PenneModel.Sem.Parse
 import PenneModel.Sem.Layout
 import PenneModel.Cli.Decide
+import PenneModel.Decls.Imports
 /-
   Model driver: one request per line on stdin (`OP<TAB>payload`), one answer per line on stdout.
   Only model files are imported (no Mathlib, no proof files), so this links as a native executable.
@@ -112,6 +113,32 @@ def c18 (payload : String) : String :=
     | _, _ => "bad-request"
   | _ => "bad-request"
 
+def c12 (payload : String) : String :=
+  -- (c12 (mods (m (d name kind pub)*)*) (imports (i j)*) (refs (i name)*))
+  match Sexp.parse payload with
+  | some (.list [.atom "c12", .list (.atom "mods" :: ms), .list (.atom "imports" :: is), .list (.atom "refs" :: rs)]) =>
+    let declOf : Sexp → Option Imports.Decl
+      | .list [.atom "d", n, .atom k, .atom p] => do
+        let kind ← (match k with
+          | "fn" => some Imports.Kind.function | "head" => some .functionHead | "const" => some .constant
+          | "struct" => some .structure | _ => none)
+        some { name := (← n.toNat?), kind := kind, pub := p == "1" }
+      | _ => none
+    let mods? : Option (List (List Imports.Decl)) := ms.mapM (fun m => match m with
+      | .list (.atom "m" :: ds) => ds.mapM declOf
+      | _ => none)
+    let pairOf : Sexp → Option (Nat × Nat)
+      | .list [a, b] => do some ((← a.toNat?), (← b.toNat?))
+      | _ => none
+    match mods?, is.mapM pairOf, rs.mapM pairOf with
+    | some mods, some imports, some refs =>
+      let own : Imports.Mods := fun k => mods.getD k []
+      let order := imports.filter (fun p => p.1 != p.2)
+      let σ := Imports.expand own order
+      " ".intercalate (refs.map (fun r => if (σ r.1).any (fun d => d.name == r.2) then "1" else "0"))
+    | _, _, _ => "bad-request"
+  | _ => "bad-request"
+
 def handle (op payload : String) : String :=
   match op with
   | "C04" =>
@@ -149,6 +176,7 @@ def handle (op payload : String) : String :=
       | some sizes => toString (Layout.typerWordSize sizes)
       | none => "bad-request"
     | _ => "bad-request"
+  | "C12" => c12 payload
   | "C18" => c18 payload
   | "C09" => c09 payload
   | "lex" =>
